@@ -178,7 +178,9 @@ impl LanguageServer for Backend {
         let uri = params.text_document.uri.clone();
         info!("did_change: {:?}", uri);
         if let Some(file_path) = self.uri_to_path(&uri) {
-            if let Some(change) = params.content_changes.first() {
+            // Full document sync: every content change carries the whole text and they apply in
+            // order, so the LAST one is the document's latest content.
+            if let Some(change) = params.content_changes.last() {
                 info!("Re-analyzing file: {:?}", file_path);
                 self.fixture_db
                     .analyze_file(file_path.clone(), &change.text);
